@@ -20,7 +20,7 @@ from ref import jws as rjws, jwe as rjwe, b64 as rb, keys as rk, selftest
 
 LEVEL = "exploration"
 RULE = ("cells = (algorithm in 14 JWS + 21 JWE algs) x (violated clause: wrong kty [each other key type], wrong curve, wrong size "
-        "[AES-KW/GCM-KW/dir sizes 16/24/32/other, RSA 1024 for key encryption], use mismatch, key_ops lacking the operation, public key "
+        "[AES-KW/GCM-KW/dir sizes 16/24/32/other, RSA 1024 / 1031 / 2047 bits for key encryption], use mismatch, key_ops lacking the operation, public key "
         "for a private operation) x operation x entry point (compact, flattened, general, RFC 7797 b64=false compact and JSON, "
         "jwt.encode/decode, add_recipient pre-attached key, sender_key) x key hand-over (key, key set, callable); key material is "
         "Hypothesis-generated per cell. Extra families: HS256/384/512 tokens MACed by the reference with each public encoding (PEM SPKI, "
@@ -123,6 +123,8 @@ def violations(alg, op):
                 yield ("size", str(n), ("oct", n), None, True)
     if alg in rjwe.RSA_ALGS and op == "encrypt":
         yield ("size", "1024", ("RSA", 1024), None, True)
+        yield ("size", "2047", ("RSA", 2047), None, True)     # one bit short of the minimum (and not a whole number of octets)
+        yield ("size", "1031", ("RSA", 1031), None, True)
     # --- use
     yield ("use", "enc" if jws else "sig", good, {"use": "enc" if jws else "sig"}, True)
     # --- key_ops
